@@ -232,7 +232,7 @@ class CFG:
             cur = IN[i]
             if cur is None or (blocked and i in blocked):
                 continue
-            out_base = _kill(cur, kills[i])
+            out_base = _kill(cur, kills[i]) | _gen(n)
             for t, lab in n.succ:
                 out = out_base
                 if lab == "exc":
@@ -266,6 +266,26 @@ class CFG:
     def holds_at_exit(self, goal, depth: int = 8) -> bool:
         return self._holds(self.exit.id, goal, depth, frozenset())
 
+    def holds_on_entry(self, loop: ast.AST, goal, depth: int = 8) -> bool:
+        """goal holds whenever the loop is entered from outside (back edges are not considered)."""
+        h = self.node_of(loop)
+        inside = {id(x) for x in ast.walk(loop)}
+        IN = self.facts()
+        for p, lab in h.pred:
+            pn = self.nodes[p]
+            if pn.ast is not None and id(pn.ast) in inside and pn is not h:
+                continue
+            if not self.reachable(p):
+                continue
+            out = _kill(IN[p], _writes(pn)) | _gen(pn)
+            if isinstance(lab, tuple) and lab[0] == "cond":
+                out = out | frozenset(norm.atoms_true(lab[1]))
+            if norm.entails(out, goal):
+                continue
+            if _killed(goal, _writes(pn)) or not self._holds(p, goal, depth, frozenset({h.id})):
+                return False
+        return True
+
     def holds_after_iteration(self, loop: ast.AST, goal, depth: int = 8) -> bool:
         """goal holds at the end of every iteration of `loop` that continues to the next one (on every back edge)."""
         h = self.node_of(loop)
@@ -279,7 +299,7 @@ class CFG:
             if not self.reachable(p):
                 continue
             any_edge = True
-            out = _kill(IN[p], _writes(pn))
+            out = _kill(IN[p], _writes(pn)) | _gen(pn)
             if isinstance(lab, tuple) and lab[0] == "cond":
                 out = out | frozenset(norm.atoms_true(lab[1]))
             if norm.entails(out, goal):
@@ -304,7 +324,7 @@ class CFG:
             if lab == "exc":
                 return False
             w = _writes(self.nodes[p])
-            out = _kill(IN[p], w)
+            out = _kill(IN[p], w) | _gen(self.nodes[p])
             if isinstance(lab, tuple) and lab[0] == "cond":
                 out = out | frozenset(norm.atoms_true(lab[1]))
             if norm.entails(out, goal):
@@ -392,7 +412,20 @@ class CFG:
         return " -> ".join(parts)
 
 
-# -- write sets / kill -------------------------------------------------------------------------------
+# -- gen / write sets / kill -------------------------------------------------------------------------
+
+def _gen(n: "Node") -> FrozenSet:
+    """Facts established by executing the node itself:  x = <numeric literal>  gives  x == literal."""
+    a = n.ast
+    if n.kind == "stmt" and isinstance(a, ast.Assign) and len(a.targets) == 1 and isinstance(a.targets[0], (ast.Name, ast.Attribute)):
+        v = a.value
+        if isinstance(v, ast.Constant) and isinstance(v.value, (int, float)) and not isinstance(v.value, bool):
+            t = norm.attr_chain(a.targets[0])
+            if t is not None:
+                return frozenset([norm.mk_cmp("==", t, repr(v.value))])
+    return frozenset()
+
+
 
 def _target_texts(t: ast.expr, out: Set[str]):
     if isinstance(t, ast.Name):
